@@ -171,6 +171,10 @@ func Reach(tag string) {
 }
 func Unwind(n int)     {}
 
+// Expect declares (comma-separated) Reach markers that stand for the subject of the harness: if one of them is not
+// reachable on the tree under check (in any shard), the check ends inconclusive instead of passing vacuously.
+func Expect(tags string) {}
+
 // EqBytes compares without forking (one term under gosmt).
 func EqBytes(a, b []byte) bool { return bytes.Equal(a, b) }
 
